@@ -1681,13 +1681,14 @@ def split_data(data, ratios, random_state=42):
         rng.shuffle(sample)
         start = 0
         for i, ratio in enumerate(ratios):
-            if i < n_folds:
+            if i < n_folds - 1:
                 fold_size = round(n * ratio)
                 fold_sample = sample[start:start + fold_size]
+                start += fold_size
             else:
+                # the last fold takes all remaining observations
                 fold_sample = sample[start::]
             folds[i].append(fold_sample)
-            start += fold_size
     assert len(folds) == n_folds
     assert len(folds[0]) == len(data)
     return list(folds.values())
